@@ -9,9 +9,12 @@
    C11_spec_reorder, the WHOLE Ast: for every permutation of the top-level items (declared names
    pairwise distinct) the constant index and the type index are the very same lists (they are
    BTreeMaps: key-sorted, determined by their lookups) and the generic set is the same; if one
-   order is accepted every order is.  PARTIAL: layout
-   independence (whitespace/comments between tokens) is established by K1 and the search over
-   random layouts, not by a theorem about the PEG.  Proofs in XdrProofs.MiscProofs. *)
+   order is accepted every order is.  Layout: C11_layout_independent -- any two layouts of
+   one declaration list (gaps of blanks, tabs, newlines, carriage returns, long and short
+   comments between the tokens, unboundedly many) are both accepted by the PEG of the
+   regenerated grammar and have the same Ast (TextProofs.parse_layout).  The theorem is about the
+   model's PEG interpreter on the regenerated grammar; its agreement with pest is the tie K1/K5.
+   Proofs in XdrProofs.MiscProofs, Reorder, TextProofs, TextTie. *)
 From XdrProofs Require Import MiscProofs Reorder.
 From Coq Require Import Permutation.
 Open Scope list_scope.
@@ -67,3 +70,44 @@ Theorem C11_sorted_maps_are_canonical :
     ksorted l1 -> ksorted l2 -> (forall k, assoc k l1 = assoc k l2) -> l1 = l2.
 Proof. exact (fun V => @ksorted_ext V). Qed.
 Print Assumptions C11_sorted_maps_are_canonical.
+
+(* ---------- layout ---------- *)
+From XdrProofs Require Import TextTie.
+Open Scope string_scope.
+
+Theorem C11_layout_independent :
+  forall ds text1 text2,
+  reads_as ds text1 = true -> reads_as ds text2 = true ->
+  exists t1 t2, (exists fuel, parse xdr_grammar fuel text1 = POk [t1] "") /\
+                (exists fuel, parse xdr_grammar fuel text2 = POk [t2] "") /\
+                ast_new t1 = ast_new t2.
+Proof. exact layout_independent. Qed.
+Print Assumptions C11_layout_independent.
+
+(* non-vacuity: two different layouts of one declaration list *)
+Example C11_layouts_nonvacuous :
+  let ds := [KConst "A" "1"; KTypedef (TTBasic ("int" ++ " ")) "t" (SFixed (BConst "A"))] in
+  (reads_as ds "const A = 1; typedef int t[A];" &&
+   reads_as ds ("const" ++ String (Ascii.ascii_of_nat 9) "A=1 ;typedef int t [ A ] ;" ++ String (Ascii.ascii_of_nat 13) (String (Ascii.ascii_of_nat 10) "")) &&
+   reads_as ds ("//c" ++ String (Ascii.ascii_of_nat 10) "const/* */A/**/=1;typedef int //x" ++ String (Ascii.ascii_of_nat 13) "t[A/***/];/*end*/"))%bool = true.
+Proof. vm_compute. reflexivity. Qed.
+
+(* in full: the two texts may spell their basic types differently (the white space inside and
+   after `unsigned   int` belongs to the token, hence to the declaration list read) *)
+Theorem C11_layout_independent_full :
+  forall ds1 ds2 text1 text2 items,
+  reads_as ds1 text1 = true -> reads_as ds2 text2 = true -> same_declarations ds1 ds2 = true ->
+  forallb decl_okb ds1 = true -> forallb decl_okb ds2 = true -> emapM item_of ds1 = EOk items ->
+  exists t1 t2, (exists fuel, parse xdr_grammar fuel text1 = POk [t1] "") /\
+                (exists fuel, parse xdr_grammar fuel text2 = POk [t2] "") /\
+                ast_new t1 = ast_of_root (NRoot (items ++ [NEOF])) /\ ast_new t2 = ast_new t1.
+Proof. exact layout_independent_full. Qed.
+Print Assumptions C11_layout_independent_full.
+
+Example C11_full_nonvacuous :
+  let ds1 := [KStruct "s" [{| f_ty := TTBasic ("unsigned int" ++ " "); f_name := "x"; f_arr := SNone; f_opt := false |}]] in
+  let ds2 := [KStruct "s" [{| f_ty := TTBasic ("unsigned" ++ String (Ascii.ascii_of_nat 9) "   int" ++ String (Ascii.ascii_of_nat 10) ""); f_name := "x"; f_arr := SNone; f_opt := false |}]] in
+  (reads_as ds1 "struct s{unsigned int x;};" &&
+   reads_as ds2 ("struct s /*c*/ { unsigned" ++ String (Ascii.ascii_of_nat 9) "   int" ++ String (Ascii.ascii_of_nat 10) "/* */ x ; } ;") &&
+   same_declarations ds1 ds2 && forallb decl_okb ds1 && forallb decl_okb ds2)%bool = true.
+Proof. vm_compute. reflexivity. Qed.
